@@ -3,6 +3,7 @@ package checks
 import (
 	"fmt"
 	"runtime"
+	"sort"
 	"sync"
 	"sync/atomic"
 	"testing"
@@ -309,6 +310,19 @@ func (r *c08Runner) run(c c08Case) *Failure {
 					v = tv
 				}
 			}
+			if call.Op == "decode" && (g+len(regs[g])+c08Round)%4 == 1 {
+				// one decode call in four gets a message that ends early, at the end of some value inside it
+				// (between two map entries, list elements or fields) or anywhere: failing calls run next to
+				// successful ones on the same types, in this round and, from the steady pool, in later ones
+				if cuts := boundaryCuts(msg); len(cuts) > 0 {
+					k := c08Round*7 + g*3 + len(regs[g])
+					if k%5 == 4 {
+						msg = msg[:(k*2654435761)%len(msg)]
+					} else {
+						msg = msg[:cuts[(k*40503)%len(cuts)]]
+					}
+				}
+			}
 			pp := prepare(s, call.Op, v, msg)
 			pp.byValue = (g+len(regs[g])+c08Round)%3 == 0
 			regs[g] = append(regs[g], pp)
@@ -535,4 +549,38 @@ func c08Storm(procs, ms int) *Failure {
 	}
 	wg.Wait()
 	return fail
+}
+
+// boundaryCuts: offsets just past a value inside the message (field values, list/set elements,
+// map keys and values), i.e. the places where a container or struct can end "between" entries.
+func boundaryCuts(msg []byte) []int {
+	tree, _, err := core.ParseStruct(msg, 1<<20)
+	if err != nil {
+		return nil
+	}
+	seen := map[int]bool{}
+	var out []int
+	add := func(o int) {
+		if o > 0 && o < len(msg) && !seen[o] {
+			seen[o] = true
+			out = append(out, o)
+		}
+	}
+	var walk func(n *core.WNode)
+	walk = func(n *core.WNode) {
+		add(n.End)
+		for i := range n.Fields {
+			walk(&n.Fields[i].V)
+		}
+		for i := range n.Elems {
+			walk(&n.Elems[i])
+		}
+		for i := range n.Keys {
+			walk(&n.Keys[i])
+			walk(&n.Vals[i])
+		}
+	}
+	walk(&tree)
+	sort.Ints(out)
+	return out
 }
